@@ -229,7 +229,8 @@ class Indexer(object):
             The value to set.
         """
         if self._flat_src:
-            arr.ravel()[self.flat()] = val
+            # arr.flat writes through to arr even when arr is not contiguous (ravel() may copy)
+            arr.flat[self.flat()] = val
         else:
             arr[self()] = val
 
